@@ -71,7 +71,11 @@ func orderTable(c *core.Ctx, fn *ssa.Function, pairs []orderPair, flags []flagAt
 
 // orderTableF: as orderTable, with a feasibility filter on the enumerated cases (e.g. an empty
 // byte string is the smallest one).
-func orderTableF(c *core.Ctx, fn *ssa.Function, pairs []orderPair, flags []flagAtom, feasible func(orderCase) bool, expected func(orderCase) bool) (mismatches []string, evaluated int, undecided []string) {
+// truthFn evaluates a boolean SSA value under an ordering/flag case; known=false when the value is
+// not a function of the declared inputs.
+type truthFn func(v ssa.Value, oc orderCase) (bool, bool)
+
+func makeTruth(c *core.Ctx, pairs []orderPair, flags []flagAtom) (truthFn, func(ssa.Value) string) {
 	pv := c.P.Prov()
 	descOf := func(v ssa.Value) string { return strings.Join(pv.Desc(v), "|") }
 	// truth of a (Not-stripped) boolean value under a case; known=false if it is not one of the inputs
@@ -154,6 +158,11 @@ func orderTableF(c *core.Ctx, fn *ssa.Function, pairs []orderPair, flags []flagA
 		}
 		return false, false
 	}
+	return truthOf, descOf
+}
+
+// enumCases lists all (ordering, flag) combinations.
+func enumCases(pairs []orderPair, flags []flagAtom) []orderCase {
 	var cases []orderCase
 	var gen func(i int, ord []int)
 	gen = func(i int, ord []int) {
@@ -172,6 +181,61 @@ func orderTableF(c *core.Ctx, fn *ssa.Function, pairs []orderPair, flags []flagA
 		}
 	}
 	gen(0, nil)
+	return cases
+}
+
+type sinkCase struct {
+	Case    orderCase
+	Reached []string
+}
+
+// decisionSinks: starting at block `from`, for every case walk the CFG along the branch edges
+// consistent with the case (branches on values that are not declared inputs are explored both
+// ways; `stop` instructions end a path) and report which of the named sinks are reachable.
+// A classification is well-defined when exactly one sink is reachable per case.
+func decisionSinks(c *core.Ctx, fn *ssa.Function, from *ssa.BasicBlock, pairs []orderPair, flags []flagAtom, stop func(ssa.Instruction) bool, sinks map[string]func(ssa.Instruction) bool) []sinkCase {
+	truthOf, _ := makeTruth(c, pairs, flags)
+	var out []sinkCase
+	names := make([]string, 0, len(sinks))
+	for n := range sinks {
+		names = append(names, n)
+	}
+	sortStrs(names)
+	for _, oc := range enumCases(pairs, flags) {
+		oc := oc
+		var reached []string
+		for _, n := range names {
+			others := func(in ssa.Instruction) bool {
+				if stop != nil && stop(in) {
+					return true
+				}
+				for m, f := range sinks {
+					if m != n && f(in) {
+						return true
+					}
+				}
+				return false
+			}
+			q := &core.Q{Fn: fn, NoPass: others, NoEdge: func(e core.Edge) bool {
+				v, neg := e.Cond()
+				t, known := truthOf(v, oc)
+				if !known {
+					return false
+				}
+				return t != (e.True != neg)
+			}}
+			if found, _, _ := q.ReachFromBlock(from, sinks[n]); found {
+				reached = append(reached, n)
+			}
+		}
+		out = append(out, sinkCase{oc, reached})
+	}
+	return out
+}
+
+func orderTableF(c *core.Ctx, fn *ssa.Function, pairs []orderPair, flags []flagAtom, feasible func(orderCase) bool, expected func(orderCase) bool) (mismatches []string, evaluated int, undecided []string) {
+	truthOf, descOf := makeTruth(c, pairs, flags)
+	cases := enumCases(pairs, flags)
 	for _, oc := range cases {
 		oc := oc
 		if feasible != nil && !feasible(oc) {
